@@ -44,7 +44,7 @@ man = {
         "name": "lean4-proof+correspondence",
         "path": "check.py",
         "serves_properties": [c["property_id"] for c in checks],
-        "kind_free_text": "Lean 4 theorems about hand-written models (lean/OdcGeo), audited for axioms on every run; models tied to /repo by a differential correspondence harness (harness/) driving the real code and the Lean driver over the same line protocol, and for 61 pure leaf functions additionally by a translator that regenerates their Lean definitions from the Python source on every run with kernel-checked equality to the hand model; exact-rational property oracles search for failing inputs",
+        "kind_free_text": "Lean 4 theorems about hand-written models (lean/OdcGeo), audited for axioms on every run; models tied to /repo by a differential correspondence harness (harness/) driving the real code and the Lean driver over the same line protocol, and for 62 pure leaf functions additionally by a translator that regenerates their Lean definitions from the Python source on every run with kernel-checked equality to the hand model; exact-rational property oracles search for failing inputs",
     }],
     "checks": checks,
     "not_applicable": na,
